@@ -405,7 +405,7 @@ fn rename_args_bodyform(b: &BodyForm) -> Result<BodyForm, CompileErr> {
             for (n, v) in invent_new_names_sexp(ldata.args.clone()).iter() {
                 own_args.insert(n.clone(), v.clone());
             }
-            let new_args = rename_in_cons(&own_args, ldata.args.clone(), false);
+            let new_args = rename_in_pattern(&own_args, ldata.args.clone());
             let new_body = rename_args_bodyform(ldata.body.borrow())?;
             let renamed_with_own_args = rename_in_bodyform(&own_args, Rc::new(new_body))?;
             Ok(BodyForm::Lambda(Box::new(LambdaData {
